@@ -63,11 +63,11 @@ impl Check for C10 {
             let no = g.range(1, 6);
             let opens: Vec<Value> = (0..no)
                 .map(|_| {
-                    let kind = *g.pick(&["ok", "ok", "err", "never", "twice", "unknown_first", "kill", "late_ok", "edge_ok"]);
+                    let kind = *g.pick(&["ok", "ok", "err", "never", "twice", "unknown_first", "kill", "alert", "late_ok", "edge_ok"]);
                     let at_ms = match kind {
                         "late_ok" => g.range(30_300, 40_000),
                         "edge_ok" => *g.pick(&[29_700u64, 29_990, 30_000, 30_010, 30_300]),
-                        "kill" => g.range(0, 29_000),
+                        "kill" | "alert" => g.range(0, 29_000),
                         _ => *g.pick(&[0u64, 0, 1, 100, 5_000, 29_000]),
                     };
                     json!({"kind": kind, "at_ms": at_ms, "start_ms": *g.pick(&[0u64, 0, 0, 1, 10, 3_000]), "via": *g.pick(&["direct", "direct", "socks5", "http"])})
@@ -437,6 +437,8 @@ async fn script_server(opens: Vec<Value>, recv_log: Arc<Mutex<Vec<(usize, u64)>>
                             let Some(w) = g.as_mut() else { return };
                             let mut out = Vec::new();
                             match kind.as_str() {
+                                // the session dies by a fatal alert from the server instead of a cut connection
+                                "alert" => out.extend(rc::encode(rc::ALERT, 0, format!("scripted alert #{}", idx).as_bytes())),
                                 "never" => return,
                                 "err" => out.extend(rc::encode(rc::SYNACK, sid, format!("scripted refusal #{}", idx).as_bytes())),
                                 "twice" => {
@@ -485,7 +487,7 @@ async fn run_script(plan: &Value) -> Outcome {
     let rl = recv_log.lock().unwrap().clone();
     // a kill takes down every open that shares the TLS connection; which opens share one is the pool's
     // business (C13), so here a killed session only relaxes the verdicts of the *other* opens
-    let any_kill = opens.iter().any(|o| o["kind"] == "kill");
+    let any_kill = opens.iter().any(|o| o["kind"] == "kill" || o["kind"] == "alert");
     for (i, o) in opens.iter().enumerate() {
         let rr = &results[i];
         let kind = o["kind"].as_str().unwrap_or("ok");
@@ -507,7 +509,7 @@ async fn run_script(plan: &Value) -> Outcome {
             out.viol("late-completion", format!("late-completion:{}:{}", via, kind), format!("open #{} completed {} ms after the server got the destination", i, rel / 1000));
         }
         let edge = at >= 29_700_000 && at <= 30_300_000;
-        let other_kill_possible = any_kill && kind != "kill";
+        let other_kill_possible = any_kill && kind != "kill" && kind != "alert";
         match kind {
             "ok" | "twice" | "unknown_first" | "edge_ok" | "late_ok" => {
                 let should_ok = at < 29_700_000;
@@ -538,7 +540,7 @@ async fn run_script(plan: &Value) -> Outcome {
                     out.viol("failure-unexpected", format!("early-timeout:{}", via), format!("open #{} gave up after {} ms although the wait is 30 s", i, rel / 1000));
                 }
             }
-            "kill" => {
+            "kill" | "alert" => {
                 if rr.ok {
                     out.viol("ok-without-connect", format!("ok-on-dead-session:{}", via), format!("open #{} reported success although its session was killed and no SYNACK sent", i));
                 } else if done > t_recv + at + 2_500_000 {
